@@ -10,3 +10,5 @@ import BalmProofs.Props.C02
 #print axioms Balm.Impl.judgeStrict_sound
 #print axioms Balm.Impl.mem_minTrapsIn
 #print axioms Balm.Impl.judgeStrict_iff
+#print axioms Balm.Props.C04.all_ops_perc_closed
+#print axioms Balm.Props.C04.init_percClosed
